@@ -4,6 +4,7 @@ package main
 // in the same format as the Lean driver.  Every call is wrapped in recover() and a watchdog.
 
 import (
+	"os"
 	"bytes"
 	"crypto/rand"
 	"encoding/base32"
@@ -294,12 +295,21 @@ type chunkReader struct {
 	pos   int
 	chunk int
 	yield bool // give other goroutines a chance between the copy and the return (widens race windows)
+	total int  // bytes handed out, including past the end of data (overrun)
+	over  bool // continue past the end of data with a fixed filler instead of failing (the OS source never ends)
 }
 
 func (r *chunkReader) Read(p []byte) (int, error) {
 	r.mu.Lock()
 	defer r.mu.Unlock()
 	if r.pos >= len(r.data) {
+		if r.over {
+			for i := range p {
+				p[i] = byte(0x5A ^ (r.total + i))
+			}
+			r.total += len(p)
+			return len(p), nil
+		}
 		return 0, io.ErrUnexpectedEOF
 	}
 	n := len(p)
@@ -311,6 +321,7 @@ func (r *chunkReader) Read(p []byte) (int, error) {
 	}
 	copy(p, r.data[r.pos:r.pos+n])
 	r.pos += n
+	r.total += n
 	if r.yield {
 		r.mu.Unlock()
 		time.Sleep(200 * time.Microsecond)
@@ -441,6 +452,76 @@ func runImplRaw(line string) string {
 			return "gen-err " + errClass(err)
 		}
 		return "gen-ok " + showVerdict(otp.ValidateTOTP(string(s), code, t2, p))
+	case "rndseq":
+		// a history of RandomSecret calls against ONE source stream, in a FRESH process (so that read-ahead or
+		// buffering inside the implementation starts empty): "rndseq a1,a2,… <stream> <chunk> <par>"
+		if len(f) != 5 {
+			return bad
+		}
+		if os.Getenv("CORR_FRESH") == "" {
+			self, _ := os.Executable()
+			os.Setenv("CORR_FRESH", "1")
+			ans := execFresh(self, []string{line})
+			os.Unsetenv("CORR_FRESH")
+			if len(ans) != 1 {
+				return "process-crash"
+			}
+			return ans[0]
+		}
+		st, ok := unhex(f[2])
+		chunk, e1 := strconv.Atoi(f[3])
+		par, e2 := strconv.Atoi(f[4])
+		if !ok || e1 != nil || e2 != nil {
+			return bad
+		}
+		var algos []uint64
+		for _, as := range strings.Split(f[1], ",") {
+			a, e := strconv.ParseUint(as, 10, 8)
+			if e != nil {
+				return bad
+			}
+			algos = append(algos, a)
+		}
+		old := rand.Reader
+		if par > 1 {
+			chunk = 0 // concurrent readers in short chunks would interleave one secret's bytes with another's: not what the OS source does
+		}
+		cr := &chunkReader{data: st, chunk: chunk, over: true, yield: par > 1}
+		rand.Reader = cr
+		res := make([]string, len(algos))
+		call := func(i int) {
+			defer func() {
+				if recover() != nil {
+					res[i] = "panic"
+				}
+			}()
+			s, err := otp.RandomSecret(otp.Algorithm(algos[i]))
+			if err != nil {
+				res[i] = "err"
+			} else {
+				res[i] = hx([]byte(s))
+			}
+		}
+		if par > 1 {
+			var wg sync.WaitGroup
+			sem := make(chan struct{}, par)
+			for i := range algos {
+				wg.Add(1)
+				sem <- struct{}{}
+				go func(i int) { defer wg.Done(); call(i); <-sem }(i)
+			}
+			wg.Wait()
+		} else {
+			for i := range algos {
+				call(i)
+			}
+		}
+		rand.Reader = old
+		ov := ""
+		if cr.total > len(st) {
+			ov = " OVERRUN"
+		}
+		return "ok " + strings.Join(res, " ") + fmt.Sprintf(" consumed=%d", cr.total) + ov
 	case "rndpar":
 		if len(f) != 4 {
 			return bad
@@ -452,7 +533,7 @@ func runImplRaw(line string) string {
 			return bad
 		}
 		old := rand.Reader
-		cr := &chunkReader{data: st, chunk: 0, yield: true}
+		cr := &chunkReader{data: st, chunk: 0, yield: true, over: true}
 		rand.Reader = cr
 		res := make([]string, n)
 		var wg sync.WaitGroup
@@ -593,11 +674,11 @@ func runImplRaw(line string) string {
 			chunk, _ = strconv.Atoi(f[3])
 		}
 		old := rand.Reader
-		cr := &chunkReader{data: st, chunk: chunk}
+		cr := &chunkReader{data: st, chunk: chunk, over: len(st) >= 64} // the OS source never ends: reading ahead must not look like a failure
 		rand.Reader = cr
 		s, err := otp.RandomSecret(otp.Algorithm(a))
 		rand.Reader = old
-		return showOut(s, err) + fmt.Sprintf(" consumed=%d", cr.pos)
+		return showOut(s, err) + fmt.Sprintf(" consumed=%d", cr.total)
 	case "help":
 		if len(f) != 3 {
 			return bad
